@@ -8,9 +8,9 @@ tree each derivation denotes:
     sexpr   := term ((+|-) term)*                   level 3
     term    := upexpr ((*|/|MOD) upexpr)*           level 4
     upexpr  := factor [ ^ upexpr ]                  level 5, right associative
-    factor  := number | string | variable | ( expr ) | (-|+|NOT|fn) factor | EOL$ …        level 6
+    factor  := number | string | variable | variable ( expr (, expr)* ) | GET ( [expr (, expr)*] ) | ( expr ) | (-|+|NOT|fn) factor | EOL$ …        level 6
              | TRIM/LTRIM/RTRIM ( factor ) | INSTR ( factor , factor ) | PAD ( expr , expr )
-             | MID$ ( expr , expr [, expr] )
+             | MID$ ( expr , expr [, expr] ) | STR_F$ / STR_E$ ( expr , expr , expr )
 
 `Deriv.den` is what "standard semantics" means for precedence and associativity: a chain at one level denotes the
 left fold of its operators, `^` nests to the right, unary operators bind tighter than every binary operator. The
@@ -31,11 +31,21 @@ inductive Deriv (α : Type) where
   | pad (a n : Deriv α)                                    -- PAD ( expr , expr )
   | mid2 (s i : Deriv α)
   | mid3 (s i j : Deriv α)
+  | fmt (isE : Bool) (x w p : Deriv α)                     -- STR_F$ / STR_E$ ( expr , expr , expr )
+  | varSub (name : String) (first : Deriv α) (more : DArgs α)   -- name ( expr (, expr)* )
+  | get0                                                   -- GET ( )
+  | get (first : Deriv α) (more : DArgs α)                 -- GET ( expr (, expr)* )
+  | getS0
+  | getS (first : Deriv α) (more : DArgs α)
   | up (a b : Deriv α)                                     -- factor ^ upexpr
   | chain (l : Nat) (first : Deriv α) (rest : DTail α)     -- operand (op operand)+ at level l ≤ 4
 inductive DTail (α : Type) where
   | nil
   | cons (op : BinOp) (d : Deriv α) (tl : DTail α)
+/-- the remaining subscripts / arguments: `(, expr)* )` -/
+inductive DArgs (α : Type) where
+  | nil
+  | cons (d : Deriv α) (tl : DArgs α)
 end
 
 variable {α : Type}
@@ -62,11 +72,21 @@ def Deriv.flat : Deriv α → List (Tok α)
   | .pad a n => [.k .pad, .k .lp] ++ a.flat ++ [.k .comma] ++ n.flat ++ [.k .rp]
   | .mid2 s i => [.k .mid_, .k .lp] ++ s.flat ++ [.k .comma] ++ i.flat ++ [.k .rp]
   | .mid3 s i j => [.k .mid_, .k .lp] ++ s.flat ++ [.k .comma] ++ i.flat ++ [.k .comma] ++ j.flat ++ [.k .rp]
+  | .fmt isE x w p =>
+    [.k (if isE then .str_e_ else .str_f_), .k .lp] ++ x.flat ++ [.k .comma] ++ w.flat ++ [.k .comma] ++ p.flat ++ [.k .rp]
+  | .varSub n f m => [.var n, .k .lp] ++ f.flat ++ m.flat
+  | .get0 => [.k .get, .k .lp, .k .rp]
+  | .get f m => [.k .get, .k .lp] ++ f.flat ++ m.flat
+  | .getS0 => [.k .get_, .k .lp, .k .rp]
+  | .getS f m => [.k .get_, .k .lp] ++ f.flat ++ m.flat
   | .up a b => a.flat ++ [.k .up] ++ b.flat
   | .chain _ f r => f.flat ++ r.flat
 def DTail.flat : DTail α → List (Tok α)
   | .nil => []
   | .cons op d tl => [.k (kOfBin op)] ++ d.flat ++ tl.flat
+def DArgs.flat : DArgs α → List (Tok α)
+  | .nil => [.k .rp]
+  | .cons d tl => [.k .comma] ++ d.flat ++ tl.flat
 end
 
 mutual
@@ -85,12 +105,21 @@ def Deriv.den : Deriv α → Expr α
   | .pad a n => .pad a.den n.den
   | .mid2 s i => .mid2 s.den i.den
   | .mid3 s i j => .mid3 s.den i.den j.den
+  | .fmt isE x w p => .fmt isE x.den w.den p.den
+  | .varSub n f m => .var n (.cons f.den m.den)
+  | .get0 => .get .nil
+  | .get f m => .get (.cons f.den m.den)
+  | .getS0 => .getS .nil
+  | .getS f m => .getS (.cons f.den m.den)
   | .up a b => .bin .up a.den b.den
   | .chain _ f r => r.fold f.den
 /-- left fold of a chain onto the accumulated left operand -/
 def DTail.fold : DTail α → Expr α → Expr α
   | .nil, acc => acc
   | .cons op d tl, acc => tl.fold (.bin op acc d.den)
+def DArgs.den : DArgs α → Args α
+  | .nil => .nil
+  | .cons d tl => .cons d.den tl.den
 end
 
 mutual
@@ -103,12 +132,19 @@ def Deriv.WF : Deriv α → Prop
   | .pad a n => a.WF ∧ n.WF
   | .mid2 s i => s.WF ∧ i.WF
   | .mid3 s i j => s.WF ∧ i.WF ∧ j.WF
+  | .fmt _ x w p => x.WF ∧ w.WF ∧ p.WF
+  | .varSub _ f m => f.WF ∧ m.WF
+  | .get f m => f.WF ∧ m.WF
+  | .getS f m => f.WF ∧ m.WF
   | .up a b => a.level = 6 ∧ a.WF ∧ 5 ≤ b.level ∧ b.WF
   | .chain l f r => l ≤ 4 ∧ l + 1 ≤ f.level ∧ f.WF ∧ r.WF l
   | _ => True
 def DTail.WF : DTail α → Nat → Prop
   | .nil, _ => True
   | .cons op d tl, l => binLevel op = l ∧ l + 1 ≤ d.level ∧ d.WF ∧ tl.WF l
+def DArgs.WF : DArgs α → Prop
+  | .nil => True
+  | .cons d tl => d.WF ∧ tl.WF
 end
 
 /-- binary-operator level of a token (`none`: not a binary operator) -/
